@@ -20,7 +20,7 @@ RULE = ('Generated transaction descriptions (1-6 tokens from a merchant-like voc
         'Non-trivial = description with >=2 words or >=1 regex metacharacter; distinct by the description.')
 ASSUMPTIONS = ['descriptions are as the parser delivers them: stripped, non-empty, single-line',
                'letters are ASCII; non-ASCII characters are uncased (the suggestion upper-cases the description)']
-REQUIRED_CLASSES = ['metachar', 'multiword', 'store_number_mid', 'store_number_glued', 'prefix', 'quote_or_backslash', 'budget_end_to_end', 'budget_refund']
+REQUIRED_CLASSES = ['metachar', 'multiword', 'store_number_mid', 'store_number_glued', 'prefix', 'quote_or_backslash', 'budget_end_to_end', 'budget_refund', 'free_text']
 
 WORDS = ['STARBUCKS', 'Netflix.com', 'UBER', 'EATS', 'AMZN', 'Mktp', 'US*1A2B3', 'WHOLEFDS', 'TRADER', "JOE'S", 'SHELL', 'OIL', 'COSTCO', 'WHSE', 'THE', 'HOME', 'DEPOT',
          'McDonald\'s', 'F12345', 'C++', 'A.B.', '(PARKING)', '[GARAGE]', 'R&D', '50%', 'PAY$', '^TOP', 'a|b', 'q?', '{x}', 'ab{2}', 'back\\slash', 'say"hi"', "it's", '日本', '☕',
@@ -40,6 +40,12 @@ def description(draw):
     mask = draw(st.one_of(st.just(0), st.integers(0, 65535)))
     s = ''.join(c.swapcase() if c.isascii() and c.isalpha() and (mask >> (i % 16)) & 1 else c for i, c in enumerate(s))
     return s.strip() or 'X'
+
+
+# descriptions that are not built from the vocabulary at all: any printable text a statement cell can carry
+import string as _string
+FREE_ALPHABET = _string.ascii_letters + _string.digits + " .,*#&'\"()[]{}|?+^$\\/-_:;!@%=<>~`" + 'éÉßİıǅ日本☕\t\u00a0\u2009'
+free_description = st.text(alphabet=FREE_ALPHABET, min_size=1, max_size=30).map(lambda d: d.strip() or 'X')
 
 
 def with_category(rule_text):
@@ -99,7 +105,7 @@ def check(d, stats: Stats):
 def _budget(draw):
     """Descriptions plus VARIANTS of them that share the suggested merchant name but need a different pattern (store number in
     the middle, DES:/ID: tails, other suffixes), with generated amounts so that discover's by-spend order varies."""
-    base = draw(st.lists(description(), min_size=1, max_size=5, unique=True))
+    base = draw(st.lists(st.one_of(description(), description(), description(), free_description.filter(lambda d: '\n' not in d)), min_size=1, max_size=5, unique=True))
     out = []
     for d in base:
         out.append(d)
@@ -202,7 +208,7 @@ def replay(case):
 
 def shards(tier):
     n = 2500 if tier == 'quick' else 25000
-    return [('desc', n)] * 12 + [('budget', max(n // 20, 10))] * 4
+    return [('desc', n)] * 10 + [('free', n)] * 2 + [('budget', max(n // 20, 10))] * 4
 
 
 def run_shard(kind, n, seed, tier):
@@ -210,6 +216,9 @@ def run_shard(kind, n, seed, tier):
     try:
         if kind == 'desc':
             campaign(description(), check, n, seed, s, tier)
+        elif kind == 'free':
+            campaign(free_description, check, n, seed, s, tier)
+            s.classes['free_text'] += 1
         else:
             campaign(budget_st, check_budget, n, seed, s, tier)
     finally:
